@@ -537,20 +537,27 @@ func unpackNodes(node *yaml.Node) []*yaml.Node {
 	nodes := make([]*yaml.Node, 0, len(node.Content))
 	var isMerge bool
 	for _, part := range node.Content {
-		if part.ShortTag() == mergeTag && part.Value == "<<" {
-			isMerge = true
-		}
-
-		if part.Alias != nil {
-			if isMerge {
-				nodes = append(nodes, resolveMapAlias(part, node).Content...)
-			} else {
-				nodes = append(nodes, resolveMapAlias(part, part))
-			}
+		if isMerge {
+			// This is the value of a merge key: a mapping or a list of mappings,
+			// written in place or as an alias.
 			isMerge = false
+			merged := []*yaml.Node{part}
+			if part.Kind == yaml.SequenceNode {
+				merged = part.Content
+			}
+			for _, src := range merged {
+				if src.Kind == yaml.MappingNode || (src.Alias != nil && src.Alias.Kind == yaml.MappingNode) {
+					nodes = append(nodes, mergedContent(src, node)...)
+				}
+			}
 			continue
 		}
-		if isMerge {
+		if part.ShortTag() == mergeTag && part.Value == "<<" {
+			isMerge = true
+			continue
+		}
+		if part.Alias != nil {
+			nodes = append(nodes, resolveMapAlias(part, part))
 			continue
 		}
 		nodes = append(nodes, part)
@@ -622,20 +629,29 @@ func ensureRequiredKeys(lines diags.LineRange, key string, keyVal *YamlNode, exp
 
 func resolveMapAlias(part, parent *yaml.Node) *yaml.Node {
 	node := *part
-	node.Content = nil
+	node.Content = mergedContent(part, parent)
+	return &node
+}
+
+// mergedContent returns keys and values of a mapping (or of the mapping an alias
+// points at) without the keys that parent sets itself.
+func mergedContent(src, parent *yaml.Node) (content []*yaml.Node) {
+	if src.Alias != nil {
+		src = src.Alias
+	}
 	var ok bool
-	for i, alias := range part.Alias.Content {
+	for i, child := range src.Content {
 		if i%2 == 0 {
-			ok = !hasKey(parent, alias.Value)
+			ok = !hasKey(parent, child.Value)
 		}
 		if ok {
-			node.Content = append(node.Content, alias)
+			content = append(content, child)
 		}
 		if i%2 == 1 {
 			ok = false
 		}
 	}
-	return &node
+	return content
 }
 
 func duplicatedKeyError(lines diags.LineRange, line int, key string) (Rule, bool) {
